@@ -172,6 +172,9 @@ func (e *Engine) fnThresholds(fn *ssa.Function) []int64 {
 			}
 		}
 	}
+	for v := range e.dynThr[fn] {
+		set[v] = true
+	}
 	var out []int64
 	for v := range set {
 		out = append(out, v)
@@ -182,6 +185,28 @@ func (e *Engine) fnThresholds(fn *ssa.Function) []int64 {
 	}
 	e.thrCache[fn] = out
 	return out
+}
+
+func (e *Engine) noteThreshold(fn *ssa.Function, v int64) {
+	if fn == nil {
+		return
+	}
+	if e.dynThr == nil {
+		e.dynThr = map[*ssa.Function]map[int64]bool{}
+	}
+	m := e.dynThr[fn]
+	if m == nil {
+		m = map[int64]bool{}
+		e.dynThr[fn] = m
+	}
+	if !m[v] {
+		m[v] = true
+		if v > 0 {
+			m[v-1] = true
+		}
+		m[v+1] = true
+		delete(e.thrCache, fn)
+	}
 }
 
 func (e *Engine) fixpoint(fr *frame) {
@@ -583,6 +608,12 @@ func (e *Engine) assumeCond(st *State, cond ssa.Value, outcome bool) {
 			op := c.Op
 			if !outcome {
 				op = negateOp(op)
+			}
+			// comparison against a value that is constant in this state: remember it as a widening threshold
+			for _, v := range []Lin{st.Subst(x), st.Subst(y)} {
+				if v.IsConst() && v.C >= 0 && v.C < 1<<40 {
+					e.noteThreshold(c.Parent(), v.C)
+				}
 			}
 			switch op {
 			case token.LSS: // x < y
